@@ -346,7 +346,7 @@ func registerLib(e *Engine) {
 		if n, ok := litInt(xs.Sl.Len); ok && n <= 16 {
 			var alts []string
 			for i := int64(0); i < n; i++ {
-				e := s.pureLoad(&Addr{Space: "elem", Ref: xs.Sl.Base, Idx: addT(xs.Sl.Off, intLit(i)), Elem: et, T: et})
+				e := s.pureLoad(&Addr{Space: "elem", Ref: xs.Sl.Base, Idx: ixT(xs.Sl.Off, intLit(i)), Elem: et, T: et})
 				alts = append(alts, eq(e.S, v.S))
 			}
 			ex = or(alts...)
@@ -363,6 +363,27 @@ func registerLib(e *Engine) {
 			s.assume(and(app("fp.leq", fpLit(-bound), r.S), app("fp.leq", r.S, fpLit(bound))))
 			return []Val{r}
 		}
+	}
+	L["(time.Time).After"] = func(s *State, site ssa.Instruction, args []Val) []Val {
+		s.used("(time.Time).After(u): compares the instants the two values denote (a total order on instants)")
+		s.c.declare("instantOf", "(declare-fun instantOf (Int Int) Int)")
+		t, u := args[0], args[1]
+		if len(t.Flds) < 2 || len(u.Flds) < 2 {
+			return []Val{s.freshVal(boolT, "after")}
+		}
+		return []Val{{T: boolT, S: s.define("after", sBool, app(">", app("instantOf", t.Flds[0].S, t.Flds[1].S), app("instantOf", u.Flds[0].S, u.Flds[1].S)))}}
+	}
+	// the UI's single mutex: ghost flag `held` (DESIGN C08). Lock while held would self-deadlock (sync.Mutex is
+	// not reentrant); Unlock while not held panics.
+	L["(*sync.Mutex).Lock"] = func(s *State, site ssa.Instruction, args []Val) []Val {
+		s.oblige("lock", site, s.c.ordinal(site, "lock"), not(s.held), "Lock() while this goroutine already holds the mutex (self-deadlock)", false)
+		s.held = "true"
+		return nil
+	}
+	L["(*sync.Mutex).Unlock"] = func(s *State, site ssa.Instruction, args []Val) []Val {
+		s.oblige("lock", site, s.c.ordinal(site, "lock"), s.held, "Unlock() of a mutex this goroutine does not hold", false)
+		s.held = "false"
+		return nil
 	}
 	for _, n := range []string{"(*sync.WaitGroup).Add", "(*sync.WaitGroup).Done", "(*sync.WaitGroup).Wait"} {
 		L[n] = func(s *State, site ssa.Instruction, args []Val) []Val { return nil }
